@@ -6,7 +6,7 @@
     Models: VCu.InitRegs, VCu.Coalescer ([fixed] = the working tree with the
     three C02 repairs, [as_found] = the code before them). *)
 From Coq Require Import List NArith Bool Lia.
-From VCu Require Import InitRegs Coalescer C02Proofs.
+From VCu Require Import InitRegs Coalescer C02Proofs C02Addr.
 Import ListNotations.
 Open Scope N_scope.
 
@@ -52,6 +52,43 @@ Theorem flat_addr_mode_agree : forall cdna3 saddr,
 Proof. intros [] saddr; unfold timing_has_saddr, decode_addr_regcount, emu_has_saddr;
        destruct (saddr =? 127), (saddr =? 0); reflexivity. Qed.
 Print Assumptions flat_addr_mode_agree.
+
+(** Mechanism 2, effective address.  FLAT / GLOBAL accesses in OFF mode (64-bit
+    VGPR pair) and in SAddr mode (SGPR-pair base + 32-bit VGPR offset), signed
+    13-bit immediate, everything modulo 2^64: for every architecture, every
+    SADDR field (the coalescer sees only the operand size the decoder derived from
+    it), every value of the SGPR pair and of the two lane registers (any naturals:
+    both sides truncate them the same way) and every immediate field, the address
+    the timing coalescer computes for the lane (readFlatAddr) is the address the
+    emulator ALU of that architecture computes (alu_flat.go, cdna3/flat.go). *)
+Theorem flat_addr_timing_eq_emu : forall cdna3 saddr sbase vlo vhi raw13,
+  timing_flat_addr (decode_addr_regcount cdna3 saddr) sbase vlo vhi (decode_off13 raw13) =
+  emu_flat_addr cdna3 saddr sbase vlo vhi (decode_off13 raw13).
+Proof. intros. apply flat_addr_agree. Qed.
+Print Assumptions flat_addr_timing_eq_emu.
+
+(** ... and that address is base + lane part + sign-extended immediate (mod 2^64);
+    in SAddr mode the lane part is the LOW register zero-extended, and it is
+    extended BEFORE the (possibly negative) immediate is added. *)
+Theorem flat_addr_closed_form : forall regcount sbase vlo vhi raw13,
+  timing_flat_addr regcount sbase vlo vhi (decode_off13 raw13) =
+  u64 ((if regcount =? 1 then u64 sbase + u32 vlo else u32 vlo + 4294967296 * u32 vhi) +
+       (if raw13 mod 8192 <? 4096 then raw13 mod 8192 else 18446744073709551616 - (8192 - raw13 mod 8192))).
+Proof. intros. rewrite timing_flat_addr_spec, sext32_decode_off13. reflexivity. Qed.
+Print Assumptions flat_addr_closed_form.
+
+(** Coverage, loads: for every line size, EXEC mask, opcode, register contents
+    [vs] (pairs low / high register per lane) and instruction fields, a byte is
+    selected by the lane information of some read transaction built from the
+    TIMING addresses iff it belongs to the access of an active lane at the
+    EMULATOR address. *)
+Theorem coalesced_load_covers_emu_bytes : forall lg cdna3 saddr sbase raw13 op exec (vs : list (N * N)) rc dst b,
+  load_txn_byte op
+    (read_txns lg exec (map (fun v => timing_flat_addr (decode_addr_regcount cdna3 saddr) sbase (fst v) (snd v)
+                                                       (decode_off13 raw13)) vs) rc dst) b
+  <-> lane_byte op exec (map (fun v => emu_flat_addr cdna3 saddr sbase (fst v) (snd v) (decode_off13 raw13)) vs) rc b.
+Proof. intros. rewrite addr_maps_agree. apply load_cover. Qed.
+Print Assumptions coalesced_load_covers_emu_bytes.
 
 (** Mechanism 2, loads.  For every FLAT load opcode both modes implement
     (16 ubyte, 17 sbyte, 18 ushort, 20/21/23 dword x1/x2/x4), every cache-line
@@ -106,6 +143,22 @@ Theorem coalesced_store_eq_emu : forall lg op exec addrs data m rc,
 Proof. intros. eapply store_eq; eauto. Qed.
 Print Assumptions coalesced_store_eq_emu.
 
+(** The same with the addresses computed by each side from the registers: the
+    masked writes built from the timing addresses change memory exactly as the
+    emulator's stores at the emulator addresses do (so they dirty exactly the
+    bytes the emulator writes, for every memory). *)
+Theorem coalesced_store_eq_emu_from_registers : forall lg cdna3 saddr sbase raw13 op exec (vs : list (N * N)) data m rc,
+  let ta := map (fun v => timing_flat_addr (decode_addr_regcount cdna3 saddr) sbase (fst v) (snd v) (decode_off13 raw13)) vs in
+  let ea := map (fun v => emu_flat_addr cdna3 saddr sbase (fst v) (snd v) (decode_off13 raw13)) vs in
+  emu_store_op op = true -> reg_count op = Some rc ->
+  no_straddle lg op exec ea rc ->
+  exists reqs me, timing_store lg op exec ta data = Some reqs /\
+                  emu_store op exec ea data m = Some me /\
+                  NoDup (map wq_addr reqs) /\
+                  forall x, apply_wreqs reqs m x = me x.
+Proof. intros until rc. intros ta ea. subst ta ea. rewrite addr_maps_agree. intros. eapply store_eq; eauto. Qed.
+Print Assumptions coalesced_store_eq_emu_from_registers.
+
 Theorem coalesced_store_straddle_refuted :
   exists lg op exec addrs data m, emu_store_op op = true /\
     emu_store op exec addrs data m <> None /\ timing_store lg op exec addrs data = None.
@@ -157,3 +210,17 @@ Example store_demo :
   omap (fun rs => apply_wreqs rs (fun _ => 0) 321) (timing_store 6 29 3 [312; 320] [[1; 2]; [772; 4]]) = Some 3 /\
   omap (fun m => m 321) (emu_store 29 3 [312; 320] [[1; 2]; [772; 4]] (fun _ => 0)) = Some 3.
 Proof. vm_compute. auto. Qed.
+
+(** Non-vacuity of the address theorems: global_load ..., v, s[4:5] offset:-64 with
+    a lane offset of 16 (< 64) and a base just above a 4 GiB boundary: the address
+    lies BELOW the boundary (base - 48), not 4 GiB above it; OFF mode with the
+    same registers reads the pair; offsets near 2^32 carry into bit 32. *)
+Example addr_demo :
+  timing_flat_addr 1 8589934624 16 7 (decode_off13 (8192 - 64)) = 8589934576 /\
+  emu_flat_addr false 4 8589934624 16 7 (decode_off13 (8192 - 64)) = 8589934576 /\
+  emu_flat_addr true 0 8589934624 16 7 (decode_off13 (8192 - 64)) = 8589934576 /\
+  emu_flat_addr false 0 8589934624 16 7 (decode_off13 (8192 - 64)) = 7 * 4294967296 + 16 - 64 /\
+  timing_flat_addr 1 4096 4294967295 0 (decode_off13 4095) = 4096 + 4294967295 + 4095 /\
+  timing_flat_addr 2 0 0 0 (decode_off13 8191) = 18446744073709551615 /\
+  decode_off13 (8192 - 64) = 4294967232.
+Proof. vm_compute. repeat split. Qed.
